@@ -90,6 +90,7 @@ void SortedVocabulary::SetupMemory(void *start, std::size_t allocated, std::size
   // Leave space for number of entries.
   begin_ = reinterpret_cast<uint64_t*>(start) + 1;
   end_ = begin_;
+  capacity_ = entries;
   saw_unk_ = false;
 }
 
@@ -186,7 +187,9 @@ void SortedVocabulary::Populated() {
 }
 
 void SortedVocabulary::LoadedBinary(bool have_words, int fd, EnumerateVocab *to, uint64_t offset) {
-  end_ = begin_ + *(reinterpret_cast<const uint64_t*>(begin_) - 1);
+  const uint64_t stored = *(reinterpret_cast<const uint64_t*>(begin_) - 1);
+  UTIL_THROW_IF(stored > capacity_, FormatLoadException, "The binary file stores " << stored << " vocabulary words but its header leaves room for " << capacity_ << ".  The file is corrupt.");
+  end_ = begin_ + stored;
   SetSpecial(Index("<s>"), Index("</s>"), 0);
   bound_ = end_ - begin_ + 1;
   if (have_words) ReadWords(fd, to, bound_, offset);
